@@ -134,6 +134,51 @@ class RealScaleMixin:
         drive()
 
 
+class PoolMixin:
+    """Adds the process-pool downloader (replayed in-process, vt/pp.py) as a
+    further front-end; pool_sigs selects which of its oracle's signatures
+    belong to this property."""
+    pool_sigs = ()
+    pool_share = 8
+
+    def strategy(self, tier):
+        from hypothesis import strategies as st
+        base = super().strategy(tier)
+        pool = gen.pp_cases().map(lambda c: dict(c, kind='pool'))
+        return gen.weighted((self.pool_share - 1, base), (1, pool))
+
+    def execute(self, case):
+        if case.get('kind') == 'pool':
+            from ..pp import run_pp_case, oracle_c19
+            R = run_pp_case(case)
+            if R.harness_error is not None:
+                raise HarnessError(str(R.harness_error))
+            out = {'violations': [], 'cls': ['processpool'],
+                   'nontrivial': False}
+            if R.sched.budget_exceeded or R.sched.deadlock:
+                out['inconclusive'] = True
+                return out
+            pid = self.id.lower()
+            for sig, msg in oracle_c19(R):
+                if any(sig.startswith('c19:' + p) for p in self.pool_sigs):
+                    out['violations'].append(
+                        (sig.replace('c19:', f'{pid}:processpool:', 1), msg))
+            oks = [r for r in R.transfers if (r['outcome'] or {}).get('ok')]
+            out['nontrivial'] = bool(R.trace.delivered) or any(
+                len(r['expect']) >= case['cfg']['multipart_threshold']
+                for r in oks)
+            return out
+        return super().execute(case)
+
+    def shrink_candidates(self, case):
+        if case.get('kind') == 'pool':
+            from .pp_checks import C19
+            for c in C19().shrink_candidates(case):
+                yield dict(c, kind='pool')
+            return
+        yield from super().shrink_candidates(case)
+
+
 class LegacyMixin:
     """Adds the legacy S3Transfer front-end (real threads, schedule-
     independent oracles) as a second class of cases."""
@@ -146,7 +191,7 @@ class LegacyMixin:
         from hypothesis import strategies as st
         base = super().strategy(tier)
         leg = gen.legacy_cases(self.legacy_ops, self.legacy_faults)
-        return st.one_of(*([base] * (self.legacy_share - 1) + [leg]))
+        return gen.weighted((self.legacy_share - 1, base), (1, leg))
 
     def execute(self, case):
         if case.get('kind') == 'legacy':
@@ -299,8 +344,9 @@ class C01(RealScaleMixin, LegacyMixin, E2ECheck):
         return cls, nt
 
 
-class C02(RealScaleMixin, LegacyMixin, E2ECheck):
+class C02(PoolMixin, RealScaleMixin, LegacyMixin, E2ECheck):
     id = 'C02'
+    pool_sigs = ('success-dest', 'too-many-gets')
     real_types = ('download',)
     legacy_ops = ('download',)
     legacy_props = ('C02',)
@@ -417,8 +463,10 @@ class C05(SystematicMixin, LegacyMixin, E2ECheck):
         return cls, nt
 
 
-class C06(SystematicMixin, LegacyMixin, E2ECheck):
+class C06(PoolMixin, SystematicMixin, LegacyMixin, E2ECheck):
     id = 'C06'
+    pool_sigs = ('partial-visible', 'temp-file-at-done',
+                 'failure-clobbered')
     systematic = 'faults'
     systematic_kinds = ('download-path',)
     legacy_ops = ('download',)
@@ -555,8 +603,8 @@ class C09(E2ECheck):
     def strategy(self, tier):
         from hypothesis import strategies as st
         from ..units import rfc
-        return st.one_of(super().strategy(tier), super().strategy(tier),
-                         rfc.sequences())
+        return gen.weighted((3, super().strategy(tier)),
+                            (1, rfc.sequences()))
 
     def execute(self, case):
         if case.get('kind') == 'rfc':
